@@ -108,6 +108,19 @@ class Contract:
         return bool(self.of("pure")) or not self.of("modifies")
 
 
+class AstFunc:
+    """A function known only by its AST (sly grammar actions share one name: located by production string)."""
+
+    def __init__(self, target: str, node: ast.FunctionDef, module: Any, path: str):
+        self.target = target
+        self.node = node
+        self.module = module
+        self.path = path
+        self.__module__ = module.__name__
+        self.__qualname__ = target.split(":")[1]
+        self.__name__ = node.name
+
+
 class Registry:
     def __init__(self) -> None:
         self.contracts: dict = {}
@@ -168,6 +181,8 @@ class Registry:
 
     # ---- real functions -----------------------------------------------------------------------
     def qualname(self, func: Any) -> str:
+        if isinstance(func, AstFunc):
+            return func.target
         return f"{func.__module__}:{func.__qualname__}"
 
     def resolve(self, target: str) -> tuple:
@@ -176,6 +191,25 @@ class Registry:
             return self._fn_cache[target]
         modname, qual = target.split(":")
         mod = importlib.import_module(modname)
+        if "@" in qual:
+            qn, prod = qual.split("@", 1)
+            clsname, meth = qn.split(".")
+            path = mod.__file__
+            tree = ast.parse(open(path).read(), path)
+            found = None
+            for c in ast.walk(tree):
+                if isinstance(c, ast.ClassDef) and c.name == clsname:
+                    for n in c.body:
+                        if isinstance(n, ast.FunctionDef) and n.name == meth:
+                            prods = [a.value for d in n.decorator_list if isinstance(d, ast.Call)
+                                     for a in d.args if isinstance(a, ast.Constant)]
+                            if prod in prods:
+                                found = n
+            if found is None:
+                raise Unsupported(f"{target}: no action with that production")
+            res = (AstFunc(target, found, mod, path), getattr(mod, clsname))
+            self._fn_cache[target] = res
+            return res
         obj: Any = mod
         owner = None
         for part in qual.split("."):
@@ -192,6 +226,8 @@ class Registry:
 
     def function_ast(self, func: Any) -> tuple:
         """AST of the real function, parsed from the working tree, and its module globals."""
+        if isinstance(func, AstFunc):
+            return (func.node, func.module.__dict__)
         key = (func.__module__, func.__qualname__, func.__code__.co_firstlineno)
         if key in self._ast_cache:
             return self._ast_cache[key]
@@ -221,16 +257,24 @@ class Registry:
         node, _ = self.function_ast(func)
         stripped = strip_for_hash(node)
         text = ast.unparse(stripped)
-        return {"file": os.path.relpath(inspect.getsourcefile(func) or "", REPO), "line": node.lineno,
+        return {"file": os.path.relpath((func.path if isinstance(func, AstFunc) else inspect.getsourcefile(func)) or "", REPO), "line": node.lineno,
                 "sha256": hashlib.sha256(text.encode()).hexdigest(), "text": text}
 
     def signature(self, func: Any) -> inspect.Signature:
         k = id(func)
         if k not in self._sig_cache:
-            self._sig_cache[k] = inspect.signature(func)
+            if isinstance(func, AstFunc):
+                a = func.node.args
+                names = [x.arg for x in a.posonlyargs + a.args]
+                prms = [inspect.Parameter(nm, inspect.Parameter.POSITIONAL_OR_KEYWORD) for nm in names]
+                self._sig_cache[k] = inspect.Signature(prms)
+            else:
+                self._sig_cache[k] = inspect.signature(func)
         return self._sig_cache[k]
 
     def contract_for(self, func: Any) -> Optional[Contract]:
+        if isinstance(func, AstFunc):
+            return self.contracts.get(func.target)
         if not isinstance(func, types.FunctionType):
             return None
         return self.contracts.get(self.qualname(func))
@@ -276,6 +320,8 @@ class Registry:
             return typ.values[d]
         if isinstance(typ, api.ListOf):
             return [self.make_symbolic(it, f"{name}[{i}]", typ.elem) for i in range(typ.n)]
+        if isinstance(typ, api.DictOf):
+            return {k: self.make_symbolic(it, f"{name}[{k!r}]", t) for k, t in typ.fields.items()}
         if isinstance(typ, api.Seq):
             nm = p._name(name)
             n = z3.Int(nm + ".len")
@@ -369,6 +415,10 @@ class Registry:
             if ops.has_sym(v):
                 return False
             return any(v is x or (type(v) is type(x) and v == x) for x in typ.values)
+        if isinstance(typ, api.DictOf):
+            if not isinstance(v, dict) or set(v) != set(typ.fields):
+                return False
+            return self._conj([self.conforms(it, v[k], t, f"{name}[{k!r}]") for k, t in typ.fields.items()])
         if isinstance(typ, api.ListOf):
             if not isinstance(v, (list, tuple)) or len(v) != typ.n:
                 return False
